@@ -1,8 +1,8 @@
 //go:build verif
 
-package count
+package count_test
 
-// C19 for Prio3Count. Generic machinery: vdaf/prio3/internal/verifc19 (overlay only); oracles: verifref/prio.
+// C19, exported-API units (package count_test: the compiler guarantees nothing unexported is named) for Prio3Count. Generic machinery: vdaf/prio3/internal/verifc19 (overlay only); oracles: verifref/prio.
 
 import (
 	"fmt"
@@ -10,19 +10,14 @@ import (
 
 	"github.com/cloudflare/circl/internal/verifmc"
 	"github.com/cloudflare/circl/internal/verifref/prio"
-	"github.com/cloudflare/circl/vdaf/prio3/internal/prio3"
+	"github.com/cloudflare/circl/vdaf/prio3/count"
 	"github.com/cloudflare/circl/vdaf/prio3/internal/verifc19"
 )
 
-// c19Evil shares an arbitrary encoded measurement with the real proof system.
-type c19Evil struct{ *flpCount }
-
-func (c19Evil) Encode(v Vec) (Vec, error) { return append(Vec{}, v...), nil }
-
-func c19Sys() *verifc19.Sys[bool, uint64, Vec, Fp] {
-	return &verifc19.Sys[bool, uint64, Vec, Fp]{
-		Make: func(i prio.Inst, n uint8) (verifc19.VDAF[bool, uint64, Vec, Fp], error) {
-			c, err := New(n, verifc19.Ctx)
+func c19Sys() *verifc19.Sys[bool, uint64, count.Vec, count.Fp] {
+	return &verifc19.Sys[bool, uint64, count.Vec, count.Fp]{
+		Make: func(i prio.Inst, n uint8) (verifc19.VDAF[bool, uint64, count.Vec, count.Fp], error) {
+			c, err := count.New(n, verifc19.Ctx)
 			if err != nil {
 				return nil, err
 			}
@@ -31,16 +26,9 @@ func c19Sys() *verifc19.Sys[bool, uint64, Vec, Fp] {
 			}
 			return c, nil
 		},
-		MakeEvil: func(i prio.Inst, n uint8) (verifc19.EvilSharder[Vec, Fp], error) {
-			p, err := prio3.New[c19Evil, Vec, uint64, Vec, Fp, *Fp](c19Evil{newFlpCount()}, 1, n, verifc19.Ctx)
-			if err != nil {
-				return nil, err
-			}
-			return &p, nil
-		},
 		ToM:   func(m []uint64) bool { return m[0] == 1 },
 		FromA: func(a *uint64) []uint64 { return []uint64{*a} },
-		Order: Fp{}.Order(),
+		Order: count.Fp{}.Order(),
 	}
 }
 
